@@ -44,6 +44,8 @@ def items(tier, seed):
     for cap, H in ([(3, 1)] if q else [(3, 1), (3, 2), (4, 2)]):
         out.append(dict(name=f"bfs-SubPER-cap{cap}-H{H}", kind="bfs", cls="SubtrajectoryReplayBufferPER", cap=cap, b=1, tasks=0, H=H, seed=seed))
     out.append(dict(name="bfs-MT-LAP-cap2-t2", kind="bfs", cls="LAP", cap=2, b=1, tasks=2, H=0, seed=seed, V=[2.0], coarse=True))
+    # lowering values: a task's stored priorities can fall below its tracked maximum, so a reset has work to do in every task
+    out.append(dict(name="bfs-MT-LAP-cap2-t2-Vlow", kind="bfs", cls="LAP", cap=2, b=1, tasks=2, H=0, seed=seed, V=[0.5], coarse=True))
     if not q:
         out.append(dict(name="bfs-MT-SubPER-cap2-t2", kind="bfs", cls="SubtrajectoryReplayBufferPER", cap=2, b=1, tasks=2, H=1, seed=seed, V=[2.0], coarse=True))
         out.append(dict(name="bfs-MT-LAP-cap2-t2-V2", kind="bfs", cls="LAP", cap=2, b=1, tasks=2, H=0, seed=seed, V=[0.5, 2.0], coarse=True))
